@@ -363,3 +363,64 @@ def relerr(a, b):
     d = (a - b).abs().max().item()
     s = max(a.abs().max().item(), b.abs().max().item(), 1e-30)
     return d / s
+
+
+# ----------------------------------------------------------------------------- M-NeoxScript correspondence
+_KIND = {'all_reduce': 'ar', 'broadcast': 'bc', 'all_gather': 'ag', 'reduce_scatter': 'rs'}
+
+
+def impl_issues(rr, r):
+    """rank r's issued collectives (kind, members, element count, root) since construction, in order"""
+    out = []
+    for e in rr.res[r]['trace']:
+        if e[0] != 'issue':
+            continue
+        _, members, kind, shape, dtype, root = e
+        n = 1
+        for s_ in shape:
+            n *= s_
+        out.append(f'{_KIND.get(kind, "?" + kind)}:{",".join(map(str, members))}:{n}:{max(root, 0)}')
+    return out
+
+
+def script_line(cfg, rr):
+    """the `neoxs` model line for a run whose history consists of training passes and steps only"""
+    if any(o not in ('f1', 's') for o in cfg.ops):
+        return None
+    stages = []
+    for p in range(cfg.pp):
+        r0 = next(r for r in range(cfg.world) if rr.res[r]['coord'][0] == p)
+        names, kinds = rr.res[r0]['names'], rr.res[r0]['kinds']
+        items = []
+        for nm, k in zip(names, kinds):
+            if k == 'col':
+                items.append(f'{nm}:c:{cfg.din}:{cfg.hidden}:{int(cfg.bias_col)}')
+            else:
+                items.append(f'{nm}:r:{cfg.hidden}:{cfg.din}:{int(cfg.bias_row)}')
+        stages.append(','.join(items))
+    tokens = cfg.batch
+    for x in cfg.lead:
+        tokens *= x
+    return (f'neoxs pp={cfg.pp} dp={cfg.dp} mp={cfg.mp} stages={"|".join(stages)} tokens={tokens} fus={cfg.fus} ius={cfg.ius} '
+            f'bucketed={int(cfg.cap_mb > 0)} cap={int(cfg.cap_mb * 1000 * 1000)} es=8 sym={int(cfg.sym)} cube=1 '
+            f'ops={",".join("f" if o == "f1" else "s" for o in cfg.ops)}')
+
+
+def compare_script(ctx, pend):
+    """pend: list of (case, line, [per-rank impl issue list]); exact comparison with the model's projections"""
+    import re
+    lines = [l for _, l, _ in pend]
+    for (case, line, impl), mo in zip(pend, ctx.model.ask(lines)):
+        if mo is None:
+            continue
+        for r, tr in enumerate(impl):
+            m = re.search(rf'(?:^| )r{r}=(\S*)', mo)
+            want = m.group(1).split(';') if m and m.group(1) else []
+            if want != tr:
+                k = next((i for i, (a, b) in enumerate(zip(want, tr)) if a != b), min(len(want), len(tr)))
+                ctx.compare('neox-script', dict(case, rank=r, index=k),
+                            f'#{k}: {want[k] if k < len(want) else None} (of {len(want)})',
+                            f'#{k}: {tr[k] if k < len(tr) else None} (of {len(tr)})')
+                break
+        else:
+            ctx.compare('neox-script', case, 'same', 'same')
